@@ -60,6 +60,7 @@ class DispatchModel:
 
     def __init__(self, vals, slots, event_names=(), tok=None):
         self.vals = dict(vals)
+        self.subvals = None                 # values of a subclass that has its own copies of the Parameters (class slice with subclass)
         self.slots = dict(slots)            # (pname, slot) -> object
         self.event_names = set(event_names)
         self.W = []
@@ -357,7 +358,7 @@ class DispatchModel:
     def canon(self):
         tok = self.tok
         return [
-            sorted((k, repr(tok(v))) for k, v in self.vals.items()),
+            sorted((k, repr(tok(v))) for k, v in self.vals.items()) + (sorted(('sub.' + k, repr(tok(v))) for k, v in self.subvals.items()) if self.subvals else []),
             sorted((repr(k), repr(tok(v))) for k, v in self.slots.items()),
             [(w['id'], w['active']) for w in self.W],
             [(f['kind'], f.get('mark'), [(k, repr(tok(v))) for k, v in f.get('restore', [])]) for f in self.ctx],
